@@ -102,7 +102,7 @@ def check(ctx, replay=None):
                 panicky.append((D, m))
             else:
                 ms.append(m)
-        bridges.append((D, ms))
+        bridges.append((D, ms + G.fixed_methods(D)))
     goals, viol, samples = [], 0, []
     stats = {"methods": 0, "accepted": 0, "rejected": 0, "rejected_defs": 0, "skipped_bridges": 0, "keys": 0, "edges": 0, "struct_edges": 0,
              "optional_struct_edges": 0, "multi_lifetime_keys": 0, "transitive_keys": 0, "panicky": len(panicky), "crashing_methods": 0, "unusable_bridges": 0}
